@@ -460,10 +460,11 @@ fn main() {
             let total = budget;
             let mut best = None;
             // iterative deepening: shortest failing tape first
-            for l in 1..=len { search(op, want.as_deref(), pat.as_deref(), &excl, l, &mut budget, &mut vec![], &mut best); if best.is_some() || budget == 0 { break; } }
+            let mut last_level: u64 = 0;
+            for l in 1..=len { let before = budget; search(op, want.as_deref(), pat.as_deref(), &excl, l, &mut budget, &mut vec![], &mut best); last_level = before - budget; if best.is_some() || budget == 0 { break; } }
             match best {
                 Some((t, o)) => { out(&t, &o, total - budget); std::process::exit(1); }
-                None => { println!("{}", serde_json::json!({"tape": null, "violations": [], "runs": total - budget, "max_len": len})); std::process::exit(0); }
+                None => { println!("{}", serde_json::json!({"tape": null, "violations": [], "runs": total - budget, "runs_deepest_level": last_level, "budget_exhausted": budget == 0, "max_len": len})); std::process::exit(0); }
             }
         }
         Some("threads") => {
